@@ -160,6 +160,11 @@ fn field_access(
 
     let mut pushed = 0;
     for entity_name in &entity_name.names {
+        if entity_name.is_nullable {
+            let msg = format!("Cannot access {name} of {entity_name}, which may be None");
+            return Err(vec![TypeErr::new(accessed.pos, &msg)]);
+        }
+
         let field = ctx
             .class(entity_name, accessed.pos)
             .map_err(|errs| access_class_cause(&errs, other, accessed, entity_name, msg))?
